@@ -62,6 +62,16 @@ CHECKS = {
         "Trusted: harness/routing.py RefRouter as the statement of C05.",
         "DESIGN.md section 4, C05",
     ),
+    "C07": (
+        "exploration",
+        "Hypothesis-generated driver definitions x op histories x request matrix, expectation computed from the generating spec, library parse-back of every emitted message",
+        "Generated-input search: device definitions (all vector kinds, inheritance, enable flags) are built into real Driver classes, "
+        "driven through generated histories, and queried with every class of (device, name) request; the elicited definitions are "
+        "compared as a multiset with the expectation derived from the spec and the drivers' public attributes, and every message "
+        "emitted on the way is round-tripped through the library's parser. Exploration.",
+        "Trusted: harness/drivers.py (spec -> classes builder, attribute-resolution model), harness/refnum.py for number values.",
+        "DESIGN.md section 4, C07",
+    ),
     "C09": (
         "exploration",
         "exhaustive state-graph enumeration (rule x n x state x operation) + Hypothesis histories, rule invariants on states and on every published update",
